@@ -452,6 +452,7 @@ RootBox(e, border) == B(FloorQ(e.x1 - 4 * border), FloorQ(e.y1 - 4 * border), Ce
 \* items: [kind, box, counts]  - counts: whether the item contributes to E
 ItemKinds == {"rect", "circle", "line", "box", "text", "point", "defs", "shapetext", "gtrans", "gscale", "specs", "symbol",
               "usex", "usey", "usexy",     \* <use> of a shape kept in <defs>, offset by x and / or y
+              "usetrans",                  \* ... moved by its own transform="translate(20 -10)"
               "polyline", "path", "nestedsvg", "gnested", "clip", "reuse",
               \* the same rect rendered from inside a control element or a plain container
               "inif", "inloop", "infor", "ing", "ina", "ifoff", "loop0",
@@ -461,7 +462,7 @@ ItemKinds == {"rect", "circle", "line", "box", "text", "point", "defs", "shapete
               "textdxy", "textloc"} \* standalone text moved by text-dxy="4 -2" / by text-loc="br" (offset 1)
 ItemBoxes == {B(2, 6, 18, 14), B(-22, -9, -6, 7), B(40, 1, 47, 30)}
 Counts(k) == k \in {"rect", "circle", "line", "box", "text", "gtrans", "gscale", "shapetext", "usex", "usey", "usexy",
-                     "polyline", "path", "nestedsvg", "gnested", "clip", "reuse", "inif", "inloop", "infor", "ing", "ina", "clipline", "gflip", "gflipx", "gtransvar", "textdxy", "textloc"}
+                     "polyline", "path", "nestedsvg", "gnested", "clip", "reuse", "inif", "inloop", "infor", "ing", "ina", "clipline", "gflip", "gflipx", "gtransvar", "textdxy", "textloc", "usetrans"}
 \* ("ifoff": inside <if test="0">, "loop0": inside <loop count="0"> - never rendered, adds nothing)
 \* the geometry an item contributes, given its base box
 Contribution(k, b) ==
@@ -473,7 +474,7 @@ Contribution(k, b) ==
       [] k = "gscale" -> B(2 * b.x1, 2 * b.y1, 2 * b.x2, 2 * b.y2)       \* <g transform="scale(2)">
       [] k = "usex" -> Shift(b, 80, 0)                                   \* <use href x="20">
       [] k = "usey" -> Shift(b, 0, -40)                                  \* <use href y="-10">
-      [] k = "usexy" -> Shift(b, 80, -40)
+      [] k \in {"usexy", "usetrans"} -> Shift(b, 80, -40)
       [] k = "gnested" -> Shift(B(2 * b.x1, 2 * b.y1, 2 * b.x2, 2 * b.y2), 12, -8)   \* translate(3 -2) outside scale(2)
       [] k = "gflip" -> B(-b.x2, -b.y2, -b.x1, -b.y1)                 \* a mirrored box still has its edges in order
       [] k = "gflipx" -> B(-b.x2, b.y1, -b.x1, b.y2)
